@@ -8,11 +8,13 @@ import copy, json, os, shutil
 from fractions import Fraction
 from common import *
 
-UNIT = 1024
+UNIT = 640000                                             # lcm of the dyadic 1/1024 and the decimal 1/10000 lattice
 MANAGERS = {"smA": ["a", "b"], "smB": ["a"]}          # registered scenarios per manager
 EQS = ["s", "f", "c", "g"]
 STARTS = [0.0, 1.0, 2.0, 0.5, 3.25]
 DTS = [1.0, 0.5, 0.25, 2.0]
+STARTS10 = [0.0, 0.1, 0.3, 1.05]                          # non-dyadic lattice (the session clock is snapped to the decimal grid)
+DTS10 = [0.1, 0.05, 0.3]
 CVALS = [5.0, 7.0, 0.5, 3.0]
 
 
@@ -69,7 +71,10 @@ def post(client, url, body=None):
 
 # ------------------------------------------------------------------ canonical forms
 def T(x):
-    fr = Fraction(float(x)) * UNIT
+    """A time label as an integer number of lattice units.  The label is read as the decimal number it prints as
+    (repr): a clock that is snapped to the decimal grid gives labels with at most 4 decimals; a label such as
+    0.30000000000000004 is off the lattice and rejected."""
+    fr = Fraction(repr(float(x))) * UNIT
     if fr.denominator != 1:
         raise ValueError(f"time {x!r} off the 1/{UNIT} lattice")
     return int(fr)
@@ -182,10 +187,15 @@ def canon_state(st):
     return d
 
 
-def classify(before, after, res_before, res_after):
+def classify(before, after, res_before, res_after, compress=False):
     """The property's right-hand side, checked directly on the real code. None = restored losslessly."""
     if after is None:
         return ("restore-failed", "the instance could not be restored")
+    if compress and not KEEPS_EMPTY_INNER[0]:
+        # the columnar format holds the leaves of a settings dictionary: {"smA": {}} comes back as {} (named partial
+        # clause; with the repair C19-compressed-empty-inner the probe is true and the comparison is exact)
+        before = dict(before, settings_log={k: prune(v) for k, v in before["settings_log"].items()})
+        after = dict(after, settings_log={k: prune(v) for k, v in after["settings_log"].items()})
     kb, ka = list(before["results_log"]), list(after["results_log"])
     if kb != ka:
         return ("step-keys-not-restored", f"results_log steps before {kb} after {ka}")
@@ -194,8 +204,9 @@ def classify(before, after, res_before, res_after):
         return ("settings-steps-not-restored", f"settings_log steps before {kb} after {ka}")
     if before["step"] != after["step"]:
         return ("session-clock-not-restored", f"step before {before['step']} after {after['step']}")
-    if before["settings_log"] != after["settings_log"]:
-        return ("settings-log-not-restored", f"settings_log before {before['settings_log']} after {after['settings_log']}")
+    for k in before["settings_log"]:                                  # entry by entry
+        if before["settings_log"][k] != after["settings_log"][k]:
+            return ("settings-log-not-restored", f"settings_log[{k}] before {before['settings_log'][k]} after {after['settings_log'][k]}")
     if before["results_log"] != after["results_log"]:
         return ("results-log-not-restored", f"results_log before {before['results_log']} after {after['results_log']}")
     if before != after:
@@ -217,7 +228,18 @@ def take_steps(srv, iid, steps, log):
     """log: list of (settings-or-None, response dict) per single step taken; returns reference violations."""
     viol = []
     for st in steps:
-        if st["k"] == "multi":
+        if st["k"] == "lib":
+            # library use: bptk.run_step(settings=s) in a loop with the SAME objects (pattern = which object of the
+            # pool each step gets), then what every stepping request of the server does: externalise the instance
+            pool = [copy.deepcopy(x) for x in st["pool"]]
+            b = srv.bptk(iid)
+            for i in st["pattern"]:
+                one = b.run_step(settings=pool[i])
+                if one is None:
+                    viol.append(("run-step-returned-none", f"library run_step {st} returned None")); break
+                log.append((pool[i], one))
+            srv.adapter.save_instance(srv.app._instance_manager._get_instance_state(iid))
+        elif st["k"] == "multi":
             r = post(srv.client, f"/{iid}/run-steps", {"settings": st["settings"], "numberSteps": st["n"]})
             if r.status_code != 200:
                 viol.append(("run-steps-http-%d" % r.status_code, f"run-steps {st} -> HTTP {r.status_code}"))
@@ -243,7 +265,7 @@ def observe(srv, iid):
     return st, raw, res
 
 
-def model_lines(inst, raw_before, log, raw_after, res_after, compress, filestate, nr, ns, tag):
+def model_lines(inst, raw_before, log, raw_after, res_after, compress, filestate, nr, ns, tag, fileraw=None, stats=None):
     """Protocol lines (request, expected reply) for one instance at one save/load point."""
     req, exp = [], []
     spec_paths = result_paths(raw_before, nr)
@@ -255,12 +277,133 @@ def model_lines(inst, raw_before, log, raw_after, res_after, compress, filestate
         req.append(f"step {sline} {vline}"); exp.append("ok")
     req.append("state"); exp.append(fmt_session(raw_before, nr, ns))
     b = "1" if compress else "0"
-    req.append(f"rt {b}"); exp.append("RESTORE-FAILED" if raw_after is None else fmt_session(raw_after, nr, ns))
+    try:
+        after_line = "RESTORE-FAILED" if raw_after is None else fmt_session(raw_after, nr, ns)
+    except (AttributeError, TypeError, KeyError) as e:   # e.g. a settings entry restored as {"py/id": n}
+        after_line = f"restored-state-not-a-session({type(e).__name__}: {e})"
+    req.append(f"rt {b}"); exp.append(after_line)
     if compress and filestate is not None:
         req.append("cs"); exp.append(fmt_cs(filestate["settings_log"], ns))
         req.append("cr"); exp.append(fmt_cr(filestate["results_log"], nr))
+    if fileraw is not None:
+        # the concrete pickler: which entries of the written settings part are py/id back-references, and to what
+        ids = idents(raw_before, compress)
+        try:
+            view, nrefs = pickle_view(fileraw, compress, ns)
+        except Exception as e:
+            view, nrefs = f"unparseable-file({type(e).__name__}: {e})", 0
+        req.append(f"pk {b} {','.join(map(str, ids)) or '-'}")
+        exp.append(f"{view};rt=ok;plain={'differs' if nrefs else 'same'}")
+        if stats is not None:
+            stats["files_with_backrefs"] += 1 if nrefs else 0
+            stats["backrefs"] += nrefs
+            stats["files"] += 1
     req.append(f"res {b}"); exp.append(fmt_res(res_after, nr) if "http" not in res_after else "HTTP-ERROR")
     return req, exp
+
+
+PK_STATS = {"files": 0, "files_with_backrefs": 0, "backrefs": 0}
+KEEPS_EMPTY_INNER = [False]                               # probed: the compressed format keeps {"smA": {}} (else compared up to those)
+
+
+def prune(d):
+    """A settings dictionary without its empty inner dictionaries (its set of leaves)."""
+    if not isinstance(d, dict):
+        return d
+    out = {}
+    for k, v in d.items():
+        pv = prune(v)
+        if isinstance(pv, dict) and not pv:
+            continue
+        out[k] = pv
+    return out
+
+
+def read_file_raw(path, iid):
+    """The inner state as plain JSON (json.loads, NOT jsonpickle): back-references stay {"py/id": n}."""
+    try:
+        env = json.loads(open(os.path.join(path, iid + ".json")).read())
+        return json.loads(env["data"]["state"])
+    except Exception:
+        return None
+
+
+def is_ref(o):
+    return isinstance(o, dict) and set(o.keys()) == {"py/id"}
+
+
+def object_paths(raw):
+    """object number -> path, numbered as jsonpickle does: depth first, every dict / list when first met, root = 0"""
+    paths = {}
+    def walk(o, path):
+        if is_ref(o):
+            return
+        if isinstance(o, dict):
+            paths[len(paths)] = path
+            for k, v in o.items():
+                walk(v, path + (k,))
+        elif isinstance(o, list):
+            paths[len(paths)] = path
+            for i, v in enumerate(o):
+                walk(v, path + (i,))
+    walk(raw, ())
+    return paths
+
+
+def pickle_view(raw, compress, ns):
+    """Which parts of the written settings log are back-references, and to what (same rendering as Drive/C19 `pk`)."""
+    paths = object_paths(raw)
+    sl = raw["settings_log"]
+    nrefs = 0
+    if not compress:
+        out = []
+        for t, v in sl.items():
+            if is_ref(v):
+                tp = paths.get(v["py/id"], ("?",))
+                nrefs += 1
+                out.append(f"{T(t)}:^/{T(tp[1])}" if len(tp) == 2 and tp[0] == "settings_log" else f"{T(t)}:^?{tp}")
+            else:
+                out.append(f"{T(t)}:obj")
+        return ",".join(out), nrefs
+    cols = []
+    for sm, a in sl["values"].items():
+        for sc, b in a.items():
+            for vt, d in b.items():
+                for name, col in d.items():
+                    p = ns((sm, sc, vt, name))
+                    ents = []
+                    for ent in col:
+                        i, v = ent
+                        if is_ref(v):
+                            tp = paths.get(v["py/id"], ("?",))
+                            nrefs += 1
+                            ok = len(tp) == 8 and tp[:2] == ("settings_log", "values") and tp[7] == 1
+                            ents.append(f"{i}=^/{ns(tuple(tp[2:6]))}/{tp[6]}/1" if ok else f"{i}=^?{tp}")
+                        else:
+                            ents.append(f"{i}={hexs(v)}")
+                    cols.append((p, f"{p}[" + ",".join(ents) + "]"))
+    return "".join(c for _, c in sorted(cols)), nrefs
+
+
+def leaves(settings):
+    for sm, a in (settings or {}).items():
+        for sc, b in a.items():
+            for vt, c in b.items():
+                for name, v in c.items():
+                    yield (sm, sc, vt, name), v
+
+
+def idents(state, compress):
+    """Identity of the settings object each step logged (plain mode: the dictionary; compressed mode: its compound
+    values, which is what the columns share), numbered by first occurrence."""
+    seen, out = {}, []
+    for n, (k, v) in enumerate(state["settings_log"].items()):
+        if compress:
+            key = tuple(sorted((pth, id(val)) for pth, val in leaves(v) if isinstance(val, (list, dict)))) or ("step", n)
+        else:
+            key = id(v)
+        out.append(seen.setdefault(key, len(seen)))
+    return out
 
 
 def read_file_state(path, iid):
@@ -325,13 +468,13 @@ def _run_case(case, base):
                 b = srv.bptk(iid)
                 raw_after = copy.deepcopy(b.session_state) if b is not None else None
                 st_before, raw_before, res_before = before[n]
-                c = classify(st_before, canon_state(raw_after), res_before, res_after)
+                c = classify(st_before, canon_state(raw_after), res_before, res_after, case["compress"])
                 if c is not None:
                     viol.append((c[0], f"{'compressed' if case['compress'] else 'plain'} mode, {route} save/load: {c[1]}",
                                  {"instance": n, "route": route}))
                 try:
                     q, e = model_lines(case["instances"][n], raw_before, logs[n], raw_after, res_after, case["compress"],
-                                       read_file_state(path, iid), nr, ns, route)
+                                       read_file_state(path, iid), nr, ns, route, read_file_raw(path, iid), PK_STATS)
                 except ValueError as err:
                     q, e = ["begin - 0 0 0"], [f"harness: {err}"]
                 req += q; exp += e
@@ -364,21 +507,58 @@ def settings_for(rng, sms, scs, rich):
     return out
 
 
+def nonnormal(rng, sms, scs):
+    """Settings with empty inner dictionaries (not in normal form): they carry no value."""
+    sm = rng.choice(sms)
+    sc = rng.choice([x for x in MANAGERS[sm] if x in scs] or MANAGERS[sm][:1])
+    base = settings_for(rng, sms, scs, False) if rng.chance(1, 2) else {}
+    r = rng.below(3)
+    if r == 0:
+        base.setdefault(sm, {})
+    elif r == 1:
+        base.setdefault(sm, {}).setdefault(sc, {})
+    else:
+        base.setdefault(sm, {}).setdefault(sc, {}).setdefault("constants", {})
+    return base
+
+
+def shared_settings(rng, sms, scs):
+    r = rng.below(4)
+    if r == 0:
+        return {}
+    if r == 1:                                            # list-valued setting: a value OBJECT shared between the steps
+        sm = rng.choice(sms)
+        sc = rng.choice([x for x in MANAGERS[sm] if x in scs] or MANAGERS[sm][:1])
+        d = {sm: {sc: {"points": {"tab": [[0.0, rng.choice(CVALS)], [1.0, 2.0]]}}}}
+        if rng.chance(1, 2):
+            d[sm][sc]["constants"] = {"c": rng.choice(CVALS)}
+        return d
+    return settings_for(rng, sms, scs, r == 3)
+
+
 def gen_step(rng, sms, scs):
-    r = rng.below(10)
+    r = rng.below(14)
     if r < 4:
         return {"k": "set", "settings": settings_for(rng, sms, scs, rng.chance(1, 2))}
-    if r < 6:
+    if r < 5:
+        return {"k": "set", "settings": nonnormal(rng, sms, scs)}
+    if r < 7:
         return {"k": "empty"}
-    if r < 8:
+    if r < 9:
         return {"k": "nobody"}
-    return {"k": "multi", "n": rng.range(1, 3), "settings": settings_for(rng, sms, scs, False) if rng.chance(1, 2) else {}}
+    if r < 12:                                            # one settings object logged for numberSteps steps
+        return {"k": "multi", "n": rng.range(1, 4), "settings": shared_settings(rng, sms, scs)}
+    pool = [shared_settings(rng, sms, scs) for _ in range(rng.range(1, 3))]
+    return {"k": "lib", "pool": pool, "pattern": [rng.below(len(pool)) for _ in range(rng.range(2, 4))]}
 
 
 def gen_case(rng, quick):
-    start, dt = rng.choice(STARTS), rng.choice(DTS)
+    if rng.chance(1, 3):
+        start, dt = rng.choice(STARTS10), rng.choice(DTS10)
+    else:
+        start, dt = rng.choice(STARTS), rng.choice(DTS)
     horizon = rng.choice([2, 4, 12, 12, 12])
-    spec = {"start": start, "dt": dt, "stop": start + dt * horizon}
+    spec = {"start": start, "dt": dt, "stop": round(start + dt * horizon, 6)}
     insts = []
     for _ in range(rng.choice([1, 1, 2, 3])):
         sms = rng.choice([["smA"], ["smA", "smB"], ["smB"]])
@@ -395,23 +575,32 @@ def exhaustive_cases(quick):
     both modes; plus every (start, dt) of the lattice with one fixed mixed history."""
     import itertools
     L = 2 if quick else 4
+    PTS = {"smA": {"a": {"points": {"tab": [[0.0, 5.0], [1.0, 2.0]]}, "constants": {"c": 7.0}}}}
     alpha = [{"k": "set", "settings": {"smA": {"a": {"constants": {"c": 5.0}}}}},
              {"k": "set", "settings": {"smA": {"b": {"constants": {"k": 3.0}}}}},
-             {"k": "empty"}, {"k": "nobody"}]
+             {"k": "empty"}, {"k": "nobody"},
+             # wave 2: ONE settings object logged for several steps (py/id back-references in the file)
+             {"k": "multi", "n": 2, "settings": {"smA": {"a": {"constants": {"c": 5.0}}}}},
+             {"k": "multi", "n": 2, "settings": {}},
+             {"k": "multi", "n": 3, "settings": PTS},
+             {"k": "lib", "pool": [PTS, {}], "pattern": [0, 1, 0]},
+             {"k": "set", "settings": {"smA": {}}}]
     out = []
     for n in range(1, L + 1):
-        for seq in itertools.product(range(4), repeat=n):
+        letters = range(4) if n > (2 if quick else 3) else range(len(alpha))
+        for seq in itertools.product(letters, repeat=n):
             for compress in (True, False):
-                out.append({"spec": {"start": 2.0, "dt": 0.5, "stop": 8.0}, "compress": compress,
+                out.append({"spec": {"start": 2.0, "dt": 0.5, "stop": 12.0}, "compress": compress,
                             "instances": [{"sms": ["smA"], "scs": ["a", "b"], "eqs": ["s", "c"],
                                            "steps": [copy.deepcopy(alpha[i]) for i in seq], "extra": [{"k": "empty"}]}]})
-    mixed = [alpha[2], alpha[0], alpha[3], alpha[1]]
-    for start in STARTS:
-        for dt in DTS:
-            for compress in (True, False):
-                out.append({"spec": {"start": start, "dt": dt, "stop": start + 10 * dt}, "compress": compress,
-                            "instances": [{"sms": ["smA", "smB"], "scs": ["a", "b"], "eqs": ["s", "g"],
-                                           "steps": copy.deepcopy(mixed), "extra": [copy.deepcopy(alpha[0])]}]})
+    mixed = [alpha[2], alpha[0], alpha[3], alpha[1], alpha[6], alpha[7]]
+    for starts, dts in ((STARTS, DTS), (STARTS10, DTS10)):
+        for start in starts:
+            for dt in dts:
+                for compress in (True, False):
+                    out.append({"spec": {"start": start, "dt": dt, "stop": round(start + 14 * dt, 6)}, "compress": compress,
+                                "instances": [{"sms": ["smA", "smB"], "scs": ["a", "b"], "eqs": ["s", "g"],
+                                               "steps": copy.deepcopy(mixed), "extra": [copy.deepcopy(alpha[0]), copy.deepcopy(alpha[4])]}]})
     return out
 
 
@@ -460,7 +649,111 @@ def probe(base):
             "instances": [{"sms": ["smA"], "scs": ["a"], "eqs": ["s"], "steps": [{"k": "nobody"}], "extra": []}]}
     _, _, v = run_case(case, base)
     facts["noneSettingsSaved"] = not any(k.startswith("run-step-without-body") for k, _, _ in v)
+    # wave 2 -- the compressed format and inner dictionaries without a value
+    try:
+        nn = {2.0: {"smA": {}}, 2.5: {"smA": {"a": {"constants": {}}}}}
+        back = sc.decompress_settings(json.loads(json.dumps(sc.compress_settings(copy.deepcopy(nn)))))
+        facts["compressionKeepsEmptyInner"] = {tkey(k): v for k, v in back.items()} == {tkey(k): v for k, v in nn.items()}
+    except Exception:
+        facts["compressionKeepsEmptyInner"] = False
+    KEEPS_EMPTY_INNER[0] = facts["compressionKeepsEmptyInner"]
+    # wave 2 -- the pickler: a real session state in which one settings object is logged for several steps
+    facts.update(probe_pickle(base))
     return facts
+
+
+def probe_pickle(base):
+    """(a) decoderResolvesRefs: FileAdapter._save_instance/_load_instance on a state with a shared settings object;
+    (b) the real state object graph, what jsonpickle.dumps wrote for it, for the Gen obligations."""
+    import contextlib, io, jsonpickle
+    from BPTK_Py.externalstateadapter import InstanceState
+    from BPTK_Py import FileAdapter
+    out = {"decoderResolvesRefs": False}
+    path = os.path.join(base, "pk")
+    shutil.rmtree(path, ignore_errors=True); os.makedirs(path)
+    spec = {"start": 2.0, "dt": 0.5, "stop": 8.0}
+    srv = Server(spec, False, path)
+    try:
+        with contextlib.redirect_stdout(io.StringIO()):
+            iid = json.loads(post(srv.client, "/start-instance").data)["instance_uuid"]
+            srv.bptk(iid).begin_session(scenarios=["a"], scenario_managers=["smA"], settings={}, agents=[], agent_states=[],
+                                        agent_properties=[], agent_property_types=[], individual_agent_properties=[],
+                                        equations=["s"], starttime=2.0, dt=0.5)
+            shared = {"smA": {"a": {"points": {"tab": [[0.0, 5.0], [1.0, 2.0]]}, "constants": {"c": 7.0}}}}
+            post(srv.client, f"/{iid}/run-steps", {"settings": shared, "numberSteps": 2})
+            post(srv.client, f"/{iid}/run-steps", {"settings": {}, "numberSteps": 2})
+            post(srv.client, f"/{iid}/run-step", {"settings": {"smA": {"a": {"constants": {"c": 5.0}}}}})
+            st = srv.app._instance_manager._get_instance_state(iid)
+            state = st.state
+            text = jsonpickle.dumps(state)
+            out["pk_state"], out["pk_text"] = state, text
+            out["pk_refs"] = text.count('"py/id"')
+            ad = FileAdapter(False, path)
+            ad._save_instance(InstanceState(copy.deepcopy(state), "probe", "t", {"minutes": 1}, state["step"]))
+            back = ad._load_instance("probe")
+            want = [canon_settings(v) for v in state["settings_log"].values()]
+            got = [canon_settings(v) for v in back.state["settings_log"].values()] if back is not None else None
+            out["decoderResolvesRefs"] = (got == want)
+    except Exception as e:
+        out["pk_error"] = repr(e)
+    finally:
+        srv.close()
+        shutil.rmtree(path, ignore_errors=True)
+    return out
+
+
+def canon_settings(v):
+    return json.dumps(v, sort_keys=True)
+
+
+def lean_str(x):
+    return json.dumps(str(x))
+
+
+def lean_atom(v):
+    if v is None:
+        return '(.atom (.str "None"))'
+    if isinstance(v, bool):
+        return f'(.atom (.str "{v}"))'
+    if isinstance(v, int):
+        return f"(.atom (.num {v}))" if v >= 0 else f"(.atom (.num ({v})))"
+    if isinstance(v, float):
+        return f"(.atom (.str {lean_str(repr(v))}))"
+    if isinstance(v, str):
+        return f"(.atom (.str {lean_str(v)}))"
+    raise ValueError(f"value {type(v).__name__} outside the modelled fragment")
+
+
+def lean_kids(pairs):
+    out = ".nil"
+    for k, v in reversed(pairs):
+        out = f"(.cons {k} {v} {out})"
+    return out
+
+
+def py_to_pv(o, addr):
+    """The Python object graph as a Lean `PV` term: identity = first-met number of id(obj)."""
+    if isinstance(o, dict):
+        a = addr.setdefault(id(o), len(addr))
+        kids = [(f"(.str {lean_str(k if isinstance(k, str) else repr(k))})", py_to_pv(v, addr)) for k, v in o.items()]
+        return f"(.obj (0, {a}) false {lean_kids(kids)})"
+    if isinstance(o, list):
+        a = addr.setdefault(id(o), len(addr))
+        return f"(.obj (0, {a}) true {lean_kids([('(.num 0)', py_to_pv(v, addr)) for v in o])})"
+    return lean_atom(o)
+
+
+def json_to_j(o):
+    """The written JSON text as a Lean `J` term ({"py/id": n} = ref n)."""
+    if is_ref(o):
+        return f"(.ref {int(o['py/id'])})"
+    if isinstance(o, dict):
+        if any(k.startswith("py/") for k in o):
+            raise ValueError("jsonpickle tag outside the modelled fragment: " + ",".join(o))
+        return f"(.obj false {lean_kids([(f'(.str {lean_str(k)})', json_to_j(v)) for k, v in o.items()])})"
+    if isinstance(o, list):
+        return f"(.obj true {lean_kids([('(.num 0)', json_to_j(v)) for v in o])})"
+    return lean_atom(o)
 
 
 def lean_row(pairs):
@@ -469,11 +762,33 @@ def lean_row(pairs):
 
 def gen_lean(facts):
     ns, nr = Numbering(), Numbering()
+    res = bool(facts.get("decoderResolvesRefs"))
     head = ("import Bptk.Props.C19\n/-! GENERATED by harness/props/c19.py from /repo on every run — do not edit. -/\n"
             "namespace Bptk.C19.Gen\n"
             f"/-- probed: decompress(compress(log)) keeps the step times: {facts['compressionKeepsSteps']}; "
-            f"run-step without body is externalised: {facts['noneSettingsSaved']} -/\n"
-            "theorem holds : C19_full := C19_full_holds\n#print axioms holds\n")
+            f"run-step without body is externalised: {facts['noneSettingsSaved']}; the compressed format keeps empty inner "
+            f"dictionaries: {facts.get('compressionKeepsEmptyInner')}; FileAdapter._load_instance resolves py/id: {res} -/\n"
+            f"def cfg : Cfg := {{ decoderResolvesRefs := {'true' if res else 'false'} }}\n"
+            "theorem holds_all_codecs : C19_full := C19_full_holds\n#print axioms holds_all_codecs\n"
+            + ("theorem holds : C19_full_cfg cfg := C19_full_of_good cfg (by decide)\n#print axioms holds\n" if res else
+               "theorem violated : ¬ C19_full_cfg cfg := C19_witness_plain_reader cfg (by decide)\n#print axioms violated\n"))
+    if "pk_state" in facts:
+        try:
+            pv = py_to_pv(facts["pk_state"], {})
+            jt = json_to_j(json.loads(facts["pk_text"]))
+            head += ("/-- the object graph of a real session state (run-steps twice: one settings object per request, logged for two "
+                     "steps each) and the JSON text `jsonpickle.dumps` wrote for it -/\n"
+                     f"def pkState : PV := {pv}\n"
+                     f"def pkText : J := {jt}\n"
+                     "theorem probe_pickle_encode : encode pkState = pkText := by decide +kernel\n"
+                     "theorem probe_pickle_decode : decode true pkText = some (unfold pkState) := by decide +kernel\n"
+                     + ("theorem probe_pickle_has_backrefs : noRef pkText = false := by decide +kernel\n"
+                        "theorem probe_plain_reader_differs : decode false pkText ≠ some (unfold pkState) := by decide +kernel\n"
+                        if facts.get("pk_refs") else "-- the written text contains no py/id back-reference\n"))
+        except Exception as e:
+            head += f"-- pickle probe outside the modelled fragment: {e!r}\n"
+    else:
+        head += f"-- pickle probe failed: {facts.get('pk_error')}\n"
     body = ""
     if facts.get("compressionKeepsSteps") and "cs" in facts:
         slog = "[" + ", ".join(f"({T(k)}, {lean_row(flat_settings(v, ns))})" for k, v in PROBE_LOG.items()) + "]"
@@ -522,7 +837,7 @@ def run(chk):
 def _run(chk, base):
     import logging
     facts = probe(base)
-    chk.notes["cfg"] = {k: v for k, v in facts.items() if k not in ("cs", "cr")}
+    chk.notes["cfg"] = {k: v for k, v in facts.items() if k not in ("cs", "cr", "pk_state", "pk_text")}
     ok, why = chk.prove(gen_lean(facts))
     chk.cov["trusted_base"] = [
         "Lean 4.33 kernel; axioms propext, Quot.sound (audited per run via #print axioms)",
@@ -551,7 +866,10 @@ def _run(chk, base):
     chk.cov["exhaustive_cases"] = n_exh
     req, exp, owners = [], [], []
     viol_by_key = {}
-    dist = {"set": 0, "empty": 0, "nobody": 0, "multi": 0, "compressed": 0, "plain": 0, "instances": {1: 0, 2: 0, 3: 0}, "stoptime_reached": 0}
+    dist = {"set": 0, "empty": 0, "nobody": 0, "multi": 0, "lib": 0, "compressed": 0, "plain": 0, "instances": {1: 0, 2: 0, 3: 0},
+            "non_dyadic": 0, "non_normal_settings": 0}
+    for k in PK_STATS:
+        PK_STATS[k] = 0
     for ci, case in enumerate(cases):
         q, e, viol = run_case(case, base)
         owners += [ci] * len(q)
@@ -560,12 +878,16 @@ def _run(chk, base):
         for k in kinds:
             dist[k] += 1
         dist["compressed" if case["compress"] else "plain"] += 1
+        dist["non_dyadic"] += 1 if Fraction(case["spec"]["dt"]).denominator > 1024 or Fraction(case["spec"]["start"]).denominator > 1024 else 0
+        dist["non_normal_settings"] += sum(1 for i in case["instances"] for s_ in i["steps"] + i["extra"]
+                                           if s_["k"] == "set" and prune(s_["settings"]) != s_["settings"])
         dist["instances"][len(case["instances"])] += 1
-        chk.case(json.dumps(case, sort_keys=True), nontrivial=("set" in kinds or "multi" in kinds) and ("empty" in kinds or "nobody" in kinds),
+        chk.case(json.dumps(case, sort_keys=True), nontrivial=("set" in kinds or "multi" in kinds or "lib" in kinds) and ("empty" in kinds or "nobody" in kinds),
                  sample=case if len(kinds) >= 4 else None)
         for v in viol:
             viol_by_key.setdefault(v[0], (case, viol))
     chk.cov["input_distribution"] = dist
+    chk.cov["pickle_backrefs"] = dict(PK_STATS)
     chk.notes["impl_wall_s"] = round(time.time() - chk.t0, 1)
     model = drive("C19", req) if req else []
     chk.notes["drive_done_s"] = round(time.time() - chk.t0, 1)
